@@ -294,7 +294,8 @@ def run_case(case, hooks=None, mutate=False):
     try:
         apply_tree(root, case['tree'])
         init = snapshot(root, cache_abs)
-        for st in case['steps']:
+        spelled = {}
+        for step_index, st in enumerate(case['steps']):
             k = st[0]
             if k == 'mut':
                 apply_mut(root, st[1], st[2], st[3], st[4])
@@ -303,6 +304,7 @@ def run_case(case, hooks=None, mutate=False):
                 _, name, versions_w, root_idx, arg_w = st[:5]
                 versions = dsl.dec_pyval(versions_w)
                 ctx = dsl.Ctx(case, root, versions, clock, fb.FileComparison)
+                ctx.set_spelling(case.get('spell'), step_index)
                 ctx.mutate = mutate
                 before_tmp = tmp_leftovers()
 
@@ -320,7 +322,7 @@ def run_case(case, hooks=None, mutate=False):
                     inj.__enter__()
                 try:
                     try:
-                        r = FileBuilder.build_versioned(cache_abs, name, versions, rootf, dsl.dec_pyval(arg_w))
+                        r = FileBuilder.build_versioned(ctx.spell(cache_abs), name, versions, rootf, dsl.dec_pyval(arg_w))
                         res = {'ok': wire.enc(r)}
                     except Exception as e:
                         res = {'exc': show_exc(e, ctx)}
@@ -329,7 +331,9 @@ def run_case(case, hooks=None, mutate=False):
                 finally:
                     if inj is not None:
                         inj.__exit__()
-                obs = {'res': res, 'tree': snapshot(root, cache_abs), 'inv': ctx.inv, 'root': root,
+                for k_, v_ in ctx.spellings.items():
+                    spelled[k_] = spelled.get(k_, 0) + v_
+                obs = {'res': res, 'tree': snapshot(root, cache_abs), 'inv': ctx.inv, 'root': root, 'spelled': dict(ctx.spellings),
                        'cache_json': read_cache_json(cache_abs) if 'ok' in res and os.path.isfile(cache_abs) else None,
                        'queries': ctx.query_log, 'contract': ctx.contract,
                        'tmp_leak': [n for n in tmp_leftovers() if n not in before_tmp]}
@@ -340,7 +344,9 @@ def run_case(case, hooks=None, mutate=False):
                 outs.append(obs)
             elif k == 'clean':
                 try:
-                    FileBuilder.clean(cache_abs, st[1])
+                    cctx = dsl.Ctx(case, root, {}, clock, fb.FileComparison)
+                    cctx.set_spelling(case.get('spell'), step_index)
+                    FileBuilder.clean(cctx.spell(cache_abs), st[1])
                     res = {'ok': None}
                 except Exception as e:
                     res = {'exc': show_exc(e)}
